@@ -12,7 +12,11 @@ PROP = {
              {"tag": "c06cn", "bin": "c06", "args": ["--elem", "cn"], "num": 106},
              # next / next_back / nth / nth_back / len / size_hint / as_slice run through the programs
              # REGENERATED from src/iter.rs (GenRun.v)
-             {"tag": "c06gen", "bin": "c06", "num": 206}],
+             {"tag": "c06gen", "bin": "c06", "num": 206},
+             # zero-sized elements cost no memory, so N can exceed u32::MAX (2^31, 2^32, 2^32+5): scripted
+             # next / next_back / nth / nth_back / len / size_hint / count against a length-only queue
+             # (direct oracle; the list model cannot hold 2^32 items)
+             {"tag": "c06huge", "bin": "c06", "args": ["--huge"], "model": False}],
     "mismatch_is_failing": True,
     "regen_files": ["GenIter.v"],
     "rule": "exhaustive: every reachable (front,back) position (directly and through clone) x every operation x every argument 0..=len+2 and usize::MAX for N<=5 (thorough: N<=8), followed by a fixed observation trailer; plus seeded histories over N in {0,1,2,3,5,8,16,97,1024}. distinct = distinct CASE lines; non-trivial = the array is non-empty (first integer > 0)",
